@@ -166,22 +166,28 @@ def c08(tier, repo=None):
     verdict = vlib.Verdict("C08")
     confirmed, unrepro = [], 0
     if bad:
-        again = []
-        for cid in list(bad)[:P["repro_cases"]]:
-            c = case_by_id[cid]
-            reps = 1 if c["mode"] == "seq" else P["repro"]
-            for k in range(reps):
-                again.append(dict(c, id="%s#%d" % (cid, k), seed=c["seed"] + k))
-        lines2, _, _, _ = streams.run_schema(again, repo=repo)
-        bad2, _, _ = judge(lines2, max_rej=12)
-        idx2 = streams.index_cases(lines2)
-        for cid in list(bad)[:P["repro_cases"]]:
-            hits = [k for k in bad2 if k.split("#")[0] == cid and bad2[k] == bad[cid]]
-            if hits:
-                confirmed.append((cid, bad[cid], idx2[hits[0]][1]))
-            else:
-                unrepro += 1
-                log("  note: rejection of %s (%s) did not reproduce in %d re-runs: not counted" % (cid, bad[cid], 1 if case_by_id[cid]["mode"] == "seq" else P["repro"]))
+        cand = list(bad)[:P["repro_cases"]]
+        left = list(cand)
+        # re-run in two batches (3 repetitions, then the rest): a case that hangs costs the 3 s watchdog per repetition
+        for batch, reps in enumerate((3, P["repro"] - 3)):
+            again = []
+            for cid in left:
+                c = case_by_id[cid]
+                for k in range(1 if c["mode"] == "seq" and not str(c["shape"]).startswith(("merge", "mergeclose")) else reps):
+                    again.append(dict(c, id="%s#%d_%d" % (cid, batch, k), seed=c["seed"] + 100 * batch + k))
+            if not again:
+                break
+            lines2, _, _, _ = streams.run_schema(again, repo=repo)
+            bad2, _, _ = judge(lines2, max_rej=12)
+            idx2 = streams.index_cases(lines2)
+            for cid in list(left):
+                hits = [k for k in bad2 if k.split("#")[0] == cid and bad2[k] == bad[cid]]
+                if hits:
+                    confirmed.append((cid, bad[cid], idx2[hits[0]][1]))
+                    left.remove(cid)
+        for cid in left:
+            unrepro += 1
+            log("  note: rejection of %s (%s) did not reproduce in %d re-runs: not counted" % (cid, bad[cid], P["repro"]))
     for cid, reason, obs in confirmed:
         verdict.violation(classify08(case_by_id[cid], reason), {"case": case_by_id[cid], "trace": obs}, reason)
     race_lib = [r for r in races if r[1]]
